@@ -31,6 +31,7 @@ unsigned   g_old_n;     /* its count on entry (0 if none) */
 int        g_exp;
 int        g_j;
 NC_attr   *g_ex, *g_oth;
+NC_attr   *g_at;        /* query functions: the attribute the index names (NULL: none) */
 unsigned   g_namelen;   /* strlen(name) as the constructor sees it */
 int32      g_k;         /* ghost byte index (name / value bytes) */
 size_t     g_nbytes;    /* SDreadattr: size of the value in bytes */
@@ -215,10 +216,10 @@ h4v_memcpy(void *d, const void *s, size_t n)
 #define PA_SLOTS(a) ((NC_attr **)(a)->values)
 /* the attribute in slot i of list a is made from the arguments: EVERY descriptive field is the new one */
 #define PA_IS_NEW(at, name, nt, count, data)                                                         \
-    ((at) != NULL && (at) == g_new && (at)->HDFtype == (nt) && (at)->data != NULL &&                 \
-     (at)->data->type == H4V_UNMAP(nt) && (at)->data->count == (unsigned)(count) &&                  \
-     (at)->data->values == (const uint8_t *)(data) && (at)->name != NULL && (at)->name->values == (name) && \
-     (at)->name->len == g_namelen)
+    ((at) == g_new && g_new != NULL && g_new->HDFtype == (nt) && g_new->data != NULL &&               \
+     g_new->data->type == H4V_UNMAP(nt) && g_new->data->count == (unsigned)(count) &&                 \
+     g_new->data->values == (const uint8_t *)(data) && g_new->name != NULL && g_new->name->values == (name) && \
+     g_new->name->len == g_namelen)
 /* the environment described by the ghosts */
 #define PA_ENV(ap)                                                                                   \
     (*(ap) == g_arr0 &&                                                                              \
@@ -302,41 +303,38 @@ int32 SDIgetcoordvar(NC *handle, NC_dim *dim, int32 id, int32 nt)
     __CPROVER_assigns(g_cv_calls)
     __CPROVER_ensures(g_cv_calls == __CPROVER_old(g_cv_calls) + 1);
 
-/* the attribute an index names in the list the id names */
+/* the attribute an index names in the list the id names: g_at (NULL: the index names nothing) */
 #define AI_OK(index) (g_ap != NULL && *g_ap != NULL && (index) >= 0 && (unsigned)(index) < (*g_ap)->count && PA_SLOTS(*g_ap)[index] != NULL)
-#define AI_AT(index) (PA_SLOTS(*g_ap)[index])
+#define AI_ENV(index)                                                                                \
+    ((g_ap == NULL || *g_ap == NULL || ((*g_ap)->values != NULL && (*g_ap)->szof == sizeof(NC_attr *) && (*g_ap)->count <= 0x7ffffff0)) && \
+     (g_at == NULL ? !AI_OK(index) : (AI_OK(index) && PA_SLOTS(*g_ap)[index] == g_at)) && g_cv_calls == 0)
 
 int SDattrinfo(int32 id, int32 index, char *name, int32 *nt, int32 *count)
-    __CPROVER_requires(g_ap == NULL || *g_ap == NULL || ((*g_ap)->values != NULL && (*g_ap)->szof == sizeof(NC_attr *) && (*g_ap)->count <= 0x7ffffff0))
+    __CPROVER_requires(AI_ENV(index))
     /* the attribute of interest is well-formed; the caller's name buffer holds the name and its terminator */
-    __CPROVER_requires(!AI_OK(index) || (AI_AT(index)->name != NULL && AI_AT(index)->data != NULL && AI_AT(index)->name->values != NULL &&
-                                         AI_AT(index)->name->len == g_namelen && g_namelen <= H4_MAX_NC_NAME))
-    __CPROVER_requires(g_cv_calls == 0)
+    __CPROVER_requires(g_at == NULL || (g_at->name != NULL && g_at->data != NULL && g_at->name->values != NULL &&
+                                        g_at->name->len == g_namelen && g_namelen <= H4_MAX_NC_NAME))
     __CPROVER_assigns(name != NULL && nt != NULL && count != NULL: __CPROVER_object_upto(name, (__CPROVER_size_t)g_namelen + 1);
                       name != NULL && nt != NULL && count != NULL: *nt, *count; g_cv_calls)
     __CPROVER_ensures(__CPROVER_return_value == SUCCEED || __CPROVER_return_value == FAIL)
-    __CPROVER_ensures((__CPROVER_return_value == SUCCEED) == (name != NULL && nt != NULL && count != NULL && AI_OK(index)))
+    __CPROVER_ensures((__CPROVER_return_value == SUCCEED) == (name != NULL && nt != NULL && count != NULL && g_at != NULL))
     /* exactly the stored HDF number type and count */
     __CPROVER_ensures(__CPROVER_return_value == SUCCEED ==>
-                      (*nt == AI_AT(index)->HDFtype && *count == (int32)AI_AT(index)->data->count && name[g_namelen] == '\0'))
-    __CPROVER_ensures((__CPROVER_return_value == SUCCEED && g_k >= 0 && (unsigned)g_k < g_namelen) ==> name[g_k] == AI_AT(index)->name->values[g_k]);
+                      (*nt == g_at->HDFtype && *count == (int32)g_at->data->count && name[g_namelen] == '\0'))
+    __CPROVER_ensures((__CPROVER_return_value == SUCCEED && g_k >= 0 && (unsigned)g_k < g_namelen) ==> name[g_k] == g_at->name->values[g_k]);
 
-/* count*szof, spelled with constant factors (szof is 1, 2, 4 or 8: NC_typelen) */
+/* g_nbytes: the size of the attribute's value in bytes, count*szof (szof is 1, 2, 4 or 8: NC_typelen) */
 #define RA_MUL(c, w) ((w) == 1 ? (size_t)(c) : (w) == 2 ? (size_t)(c)*2 : (w) == 4 ? (size_t)(c)*4 : (size_t)(c)*8)
-#define RA_NBYTES(index) RA_MUL(AI_AT(index)->data->count, AI_AT(index)->data->szof)
-/* g_nbytes: the size of the attribute's value in bytes, count*szof (a plain ghost so that the frame and the
-   byte clause need no multiplication) */
 int SDreadattr(int32 id, int32 index, void *buf)
-    __CPROVER_requires(g_ap == NULL || *g_ap == NULL || ((*g_ap)->values != NULL && (*g_ap)->szof == sizeof(NC_attr *) && (*g_ap)->count <= 0x7ffffff0))
-    __CPROVER_requires(!AI_OK(index) || (AI_AT(index)->data != NULL && AI_AT(index)->data->values != NULL && AI_AT(index)->data->count <= MAX_ORDER &&
-                                         (AI_AT(index)->data->szof == 1 || AI_AT(index)->data->szof == 2 || AI_AT(index)->data->szof == 4 ||
-                                          AI_AT(index)->data->szof == 8) && g_nbytes == RA_NBYTES(index)))
-    __CPROVER_requires(g_cv_calls == 0)
-    __CPROVER_assigns(buf != NULL && AI_OK(index): __CPROVER_object_upto(buf, g_nbytes); g_cv_calls)
+    __CPROVER_requires(AI_ENV(index))
+    __CPROVER_requires(g_at == NULL || (g_at->data != NULL && g_at->data->values != NULL && g_at->data->count <= MAX_ORDER &&
+                                        (g_at->data->szof == 1 || g_at->data->szof == 2 || g_at->data->szof == 4 || g_at->data->szof == 8) &&
+                                        g_nbytes == RA_MUL(g_at->data->count, g_at->data->szof)))
+    __CPROVER_assigns(buf != NULL && g_at != NULL: __CPROVER_object_upto(buf, g_nbytes); g_cv_calls)
     __CPROVER_ensures(__CPROVER_return_value == SUCCEED || __CPROVER_return_value == FAIL)
-    __CPROVER_ensures((__CPROVER_return_value == SUCCEED) == (buf != NULL && AI_OK(index)))
+    __CPROVER_ensures((__CPROVER_return_value == SUCCEED) == (buf != NULL && g_at != NULL))
     __CPROVER_ensures((__CPROVER_return_value == SUCCEED && g_k >= 0 && (size_t)g_k < g_nbytes) ==>
-                      ((h4v_u8 *)buf)[g_k] == AI_AT(index)->data->values[g_k]);
+                      ((h4v_u8 *)buf)[g_k] == g_at->data->values[g_k]);
 
 #ifdef H4V_NATIVE
 #include "h4v_native_wrap.h"
@@ -470,12 +468,14 @@ mk_file(int32 id, NC_array *arr)
     H4V_ND(int, cvar_null);
     H4V_ASSUME(g_cdfid >= 0 && g_cdfid < 0x1000);
     H4V_ASSUME(nvars <= 0x10000 && ndims <= 0x10000);
-#ifdef EXP_NOTAB
-    H4V_ASSUME(vars_null && dims_null);
-#endif
     int      fid = (int)((id >> 20) & 0xfff);
     int      typ = (int)((id >> 16) & 0x0f);
     unsigned idx = (unsigned)(id & 0xffff);
+#if defined(H4V_NATIVE) || defined(H4V_CEX)
+    /* natively the REAL SDIgetcoordvar would run (it is replaced by its assumed contract in the proof):
+       dimension ids are not replayed, and counterexamples are searched among the other ids */
+    H4V_ASSUME(typ != DIMTYPE);
+#endif
     g_handle     = NULL;
     g_ap         = NULL;
     g_cvar       = NULL;
@@ -576,6 +576,7 @@ mk_qlist(int32 index, int for_values)
     H4V_ND(int, slot_null);
     H4V_ASSUME(g_namelen <= H4_MAX_NC_NAME);
     g_nbytes = 0;
+    g_at     = NULL;
     if (list_null)
         return NULL;
     H4V_ASSUME(nattrs <= H4_MAX_NC_ATTRS + 1);
@@ -592,11 +593,7 @@ mk_qlist(int32 index, int for_values)
         if (!slot_null) {
             H4V_ND(unsigned, a_count);
             H4V_ND(int32, a_hdftype);
-#ifdef RA_W /* one element size per run: keeps count*szof a constant multiplication */
-            unsigned a_szof = RA_W;
-#else
             H4V_ND(unsigned, a_szof);
-#endif
             at            = malloc(sizeof(NC_attr));
             NC_array  *d  = malloc(sizeof(NC_array));
             NC_string *s  = malloc(sizeof(NC_string));
@@ -611,9 +608,6 @@ mk_qlist(int32 index, int for_values)
             d->values   = NULL;
             s->hash     = 0;
             if (for_values) {
-#ifdef EXP_SMALL
-                H4V_ASSUME(a_count <= 16);
-#endif
                 H4V_ASSUME(a_count <= MAX_ORDER);
                 H4V_ASSUME(a_szof == 1 || a_szof == 2 || a_szof == 4 || a_szof == 8);
                 size_t nb = RA_MUL(a_count, a_szof);
@@ -631,6 +625,7 @@ mk_qlist(int32 index, int for_values)
             }
         }
         ((NC_attr **)arr->values)[index] = at;
+        g_at                             = at;
     }
     return arr;
 }
@@ -644,6 +639,8 @@ h_SDattrinfo(void)
     NC_array *arr = mk_qlist(index, 0);
     reset_logs();
     mk_file(id, arr);
+    if (g_ap == NULL)
+        g_at = NULL;
     H4V_ND_BUF(char, name, g_namelen + 1, 9);
     int32 nt = 0, count = 0;
     int   r  = SDattrinfo(id, index, null_case == 1 ? NULL : name, null_case == 2 ? NULL : &nt, null_case == 3 ? NULL : &count);
@@ -663,15 +660,13 @@ h_SDreadattr(void)
     NC_array *arr = mk_qlist(index, 1);
     reset_logs();
     mk_file(id, arr);
-    size_t nb = AI_OK(index) ? g_nbytes : 0;
+    if (g_ap == NULL)
+        g_at = NULL;
+    size_t nb = g_nbytes;
     H4V_ND_BUF(h4v_u8, buf, nb + 1, 17);
-#ifndef EXP_NOGUARD
     h4v_u8 guard = buf[nb];
-#endif
     int    r     = SDreadattr(id, index, buf_null ? NULL : buf);
-#ifndef EXP_NOGUARD
     H4V_CHECK(buf[nb] == guard, "SDreadattr: the byte after count*szof bytes is untouched");
-#endif
     H4V_COVER(r == SUCCEED && nb == 6, "readattr: 3 values of 2 bytes");
     H4V_COVER(r == SUCCEED && nb == 8 * MAX_ORDER, "readattr: largest attribute");
     H4V_COVER(r == FAIL && !buf_null && g_ap != NULL, "readattr: bad index");
